@@ -359,15 +359,19 @@ def _dispatch_ws(fl, ah, upgraded, frames_spec):
         sut.close()
 
 
+def _ws_two(fl, ah, upgraded, n, t0, k0, b):
+    return _dispatch_ws(fl, bool(ah), upgraded, [(t0, k0), (_T3[b], 0)][:n])
+
+
 @cond(quick=dict(timeout=170, T=4, parts=dict(FL=[0, 1], AH=[0, 1])), thorough=dict(timeout=900, T=6, parts=dict(FL=[0, 1], AH=[0, 1])))
 def websocket_frames(fl: int, ah: int, upgraded: bool, n: int, t0: int, k0: int, b: int) -> str:
     """
     pre: fl == P.FL and ah == P.AH and 1 <= n <= 2 and 0 <= t0 <= 9 and 0 <= b < P.T
-    pre: ((t0 == 4 and 0 <= k0 <= len(PAY)) or (t0 != 4 and k0 == 0))
+    pre: ((t0 == 4 and 0 <= k0 <= len(PAY)) or (t0 != 4 and k0 == 0)) and (n >= 2 or b == 0)
     post: _ == ''
     """
     # first frame: any type 0-9 / any table payload (text, JSON, binary frame); second frame from the type table
-    return verdict(_dispatch_ws(fl, bool(ah), upgraded, [(t0, k0), (_T3[b], 0)][:n]))
+    return verdict(untraced(_ws_two, fl, ah, upgraded, n, t0, k0, b))
 
 
 def _dispatch_mid_upgrade(fl, ah, spec, stage=0):
@@ -434,10 +438,10 @@ def _dispatch_mid_upgrade(fl, ah, spec, stage=0):
         sut.close()
 
 
-@cond(quick=dict(timeout=120), thorough=dict(timeout=600))
+@cond(quick=dict(timeout=170, parts=dict(ST=[0, 1, 2], FL=[0, 1])), thorough=dict(timeout=600, parts=dict(ST=[0, 1, 2], FL=[0, 1])))
 def mid_upgrade_post(fl: int, ah: bool, t0: int, k0: int, b: int, n: int, stage: int) -> str:
     """
-    pre: 0 <= fl <= 1 and 1 <= n <= 2 and 0 <= t0 <= 9 and 0 <= b < len(_T1) and 0 <= stage <= 2 and (stage == 0 or b <= 5)
+    pre: fl == P.FL and 1 <= n <= 2 and 0 <= t0 <= 9 and 0 <= b < len(_T1) and stage == P.ST and (P.ST == 0 or b <= 5)
     pre: ((t0 == 4 and 0 <= k0 <= len(PAY)) or (t0 != 4 and k0 == 0))
     post: _ == ''
     """
